@@ -268,7 +268,7 @@ impl Manifest {
                 // A MANIFEST without a single complete edit (a crash right after it was created)
                 // has nothing to roll up:  rolling it over would start the new file with an empty
                 // edit, ahead of whatever the caller records first.
-                if manifest.is_file() && !(this.strs.is_empty() && this.info.is_empty()) {
+                if manifest.is_file() && Self::read_first_edit(&manifest)?.is_some() {
                     this.rollover()?;
                 }
                 Ok(this)
